@@ -108,6 +108,13 @@ def add_add_op_after_concat(op, arch):
     add_op.add_input_tensor(in2)
     add_op.set_output_tensor(out)
     add_op.set_ifm_ofm_shapes()
+    if add_op.ofm_shapes[0].batch > 1:
+        # The NPU processes a single batch: a result with several batches (concatenation along the batch axis, PACK) is
+        # copied with the batches folded into the height, which is the same memory for both feature map formats
+        full_shape = add_op.ofm_shapes[0]
+        folded_shape = Shape4D(1, full_shape.batch * full_shape.height, full_shape.width, full_shape.depth)
+        add_op.ifm_shapes[0] = folded_shape
+        add_op.ofm_shapes[0] = folded_shape
     add_op.attrs["pot_scale_int16"] = False
 
     op.set_output_tensor(in1)
